@@ -292,7 +292,8 @@ type Case2 struct {
 	Wire   int   `json:"wire"`
 	Before int   `json:"before"` // 3 base-4 digits: state of column 0, 1, 2
 	After  int   `json:"after"`
-	Big    bool  `json:"big,omitempty"` // the BLOB value has 2^24+1 bytes
+	Big    bool  `json:"big,omitempty"`  // the BLOB value has 2^24+1 bytes
+	Long   int   `json:"long,omitempty"` // >0: the VARCHAR and BLOB values (2-byte prefix) have this many bytes
 	Seed   int64 `json:"seed"`
 }
 
@@ -334,6 +335,9 @@ func (c Case2) cellFor(col, st, r, img, pat int) ref.Cell {
 		}
 		if c.Big && col == 2 {
 			l = 1<<24 + 1
+		}
+		if c.Long > 0 && col != 1 {
+			l = c.Long - (img+r)%2*col/2 // both columns at the length (the BLOB of every other image one byte shorter)
 		}
 		s = contentOf(c.Seed, (pat+col*3+img+r)%len(alphaNames), l)
 	}
@@ -584,6 +588,26 @@ func run(r *chk.Run) {
 		evals2.Add(e)
 		nontriv2.Add(nt)
 	})
+	if !stop.Load() && only != "1" {
+		// the largest values a 2-byte length prefix can announce (65533..65535
+		// bytes), in events of two rows: the length rule that cuts the rows and
+		// the value decoder must agree there too
+		for _, l := range []int{65533, 65534, 65535} {
+			for kind := 0; kind < 3; kind++ {
+				for w := range wires2 {
+					c := Case2{VM: 65535, CM: 255, LB: 2, Kind: kind, Wire: w, Before: 0, After: 0, Long: l, Seed: seed}
+					guard.Enter(0, c)
+					m := eval2(c, nil)
+					guard.Leave(0)
+					evals2.Add(1)
+					nontriv2.Add(1)
+					if m.Bad() {
+						report2(r, c, m)
+					}
+				}
+			}
+		}
+	}
 	if r.Thorough() && !stop.Load() && only != "1" {
 		// one event whose BLOB value sets the 4th length byte, for each kind
 		for kind := 0; kind < 3; kind++ {
